@@ -48,6 +48,10 @@ func trimLocalPrefix(n Node, name string) string {
 // externally-defined groupings. Note that any prefix in the name must match
 // the module prefix of its import statement in the context node's module.
 func FindGrouping(n Node, name string, seen map[string]bool) *Grouping {
+	if seen == nil {
+		// A caller from outside has no set to hand in.
+		seen = map[string]bool{}
+	}
 	name = trimLocalPrefix(n, name)
 	for n != nil {
 		// Grab the Grouping field of the underlying structure.  n is
